@@ -19,3 +19,7 @@ func Fail(sig, format string, a ...any) Violation {
 
 // Settle waits until every goroutine of the current bubble is durably blocked.
 func Settle() { settle() }
+
+// ChanPoint is the scheduling point the instrumenter inserts before channel statements
+// (send, receive, select) of files listed under "chan_points" of a variant.
+func ChanPoint() { PointSkip("chan", 1, nil) }
